@@ -225,6 +225,9 @@ Inductive op :=
 | OProxy (b : bool)             (* SetProxyURL(the environment's proxy) / SetProxy(nil), followed by
                                    CloseIdleConnections (idle connections are keyed by the proxy: those made on
                                    the other route would merely be out of reach) *)
+| OWrap                         (* Transport.WrapRoundTripFunc(a pass-through middleware): the chain ends in the
+                                   roundTrip of the transport it is installed on - of the CLONE on a clone - and
+                                   is transparent to protocol selection and TLS *)
 | OClone                        (* Clone(): go on with the clone *)
 | OCloseIdle                    (* Transport.CloseIdleConnections *)
 | OBg                           (* the pending handlePendingAltSvc goroutine (if any) runs now *)
@@ -545,6 +548,7 @@ Definition step_gen (guard : bool) (e : env) (c : client) (o : op) : obs * clien
   | OHandshake o => (ObsCfg, with_hs o false c)
   | OFingerprint => (ObsCfg, with_hs None true c)
   | OProxy b => (ObsCfg, with_route b (with_alti false (with_idle false false (with_t2 false (if closeidle_closes_h3 then with_t3 T3None c else c)))))
+  | OWrap => (ObsCfg, c)
   | OClone => (ObsCfg, do_clone c)
   | OCloseIdle => (ObsCfg, with_alti false (with_idle false false (with_t2 false (if closeidle_closes_h3 then with_t3 T3None c else c))))
   | OBg => let '(ds, c') := do_bg e c in (ObsBg ds (alt_obs c'), c')
